@@ -586,6 +586,10 @@ func (tc *typechecker) typeof(expr ast.Expression, typeExpected bool) *typeInfo 
 				panic(tc.errorf(ident, "invalid macro result type %s", ident.Name))
 			}
 		}
+		// reflect.FuncOf panics with more than 128 parameters and results.
+		if numIn+numOut > 128 {
+			panic(tc.errorf(expr, "function parameters and results count exceeded 128"))
+		}
 		expr.Reflect = tc.types.FuncOf(in, out, variadic)
 		return &typeInfo{Type: expr.Reflect, Properties: propertyIsType}
 
